@@ -54,7 +54,7 @@ PROPS = {
             "LeImage (to_le_bytes is fixed-width and injective) is an axiom for the Verus unit; the exact little-endian bytes are established on the real code by the Kani harnesses le_*",
             "Discriminant<T>: the impl is unsafe raw-byte code (external_body): assumed to feed a fixed number of bytes that are equal exactly for the same variant (same compiler); axioms axiom_disc_*",
             "str/String: bytes = utf8(view); str::len has no vstd spec (rule R14); a VALUE of a string type holds at most isize::MAX bytes (axiom per value, not for arbitrary character sequences); 64-bit usize",
-            "NOT under contract (rule R7: `sub_hash` takes dyn closures): HashMap/HashSet/BinaryHeap/DashMap/DashSet/ReadOnlyView -- covered only by the bounded run; also BTreeMap/BTreeSet/LinkedList (no vstd iterator models; VecDeque IS under contract through rule R16: its byte stream is a function of the element sequence, not of where the ring buffer wraps), RangeInclusive, Path/OsStr/CStr (Cow IS under contract: its stream is the stream of the value it dereferences to, whichever variant it is; std model: Deref for Cow), atomics, FlexStr, SmallVec, BitVec, the SipHasher impl and SeededStableHasherBuilder",
+            "NOT under contract (rule R7: `sub_hash` takes dyn closures): HashMap/HashSet/BinaryHeap/DashMap/DashSet/ReadOnlyView -- covered only by the bounded run; also BTreeMap/BTreeSet/LinkedList (no vstd iterator models; VecDeque IS under contract through rule R16: its byte stream is a function of the element sequence, not of where the ring buffer wraps), RangeInclusive (finding F5), (Cow IS under contract: its stream is the stream of the value it dereferences to, whichever variant it is; std model: Deref for Cow; OsStr / OsString / Path / PathBuf / CStr / CString ARE under contract: each is framed like a byte slice -- length prefix + the platform byte representation, an uninterpreted function of the value), atomics, FlexStr, SmallVec, BitVec, the SipHasher impl and SeededStableHasherBuilder",
             "write_f32/f64 (NaN normalisation) are not in the Verus unit (no float support): established full-domain by Kani",
         ],
     },
